@@ -303,7 +303,17 @@ def scan_file(repo, rel):
             scope = (impl + "::" if impl else "") + fn
             l = line_of[pos]
             norm = " ".join(lines[l - 1].split())
-            sites.append({"key": "%s|%s|%s" % (short, scope, kind), "file": rel, "line": l, "text": norm, "kind": kind, "scope": scope, "short": short})
+            site = {"key": "%s|%s|%s" % (short, scope, kind), "file": rel, "line": l, "text": norm, "kind": kind, "scope": scope, "short": short}
+            if kind == "index":
+                # `base[<integer literal>]`: the constant indices (round 5: Gen.C01Sites.const_index_sites, checked against the array lengths)
+                close = text.find("]", pos)
+                inner = text[pos + 1:close].strip() if close > 0 else ""
+                bm = re.search(r"([A-Za-z_][\w.]*)$", text[:pos])
+                if re.fullmatch(r"\d+(?:usize)?", inner):
+                    if not bm:
+                        die("%s:%d: constant index on an expression that is not a field path: `%s`" % (rel, l, norm[:100]))
+                    site["cidx"] = (bm.group(1), int(inner.replace("usize", "")))
+            sites.append(site)
     # recursion: a call of the innermost enclosing fn's own name
     for m in re.finditer(r"(?<![\w.:])(?:Self::|self\.)?([a-z_]\w*)\s*\(", text):
         pos = m.start()
@@ -436,6 +446,17 @@ def gen_v(grps, sites):
     out.append(";\n".join("  (%s, (%d, %s))" % (q(k), n, q(h)) for k, n, h, _ in grps))
     out.append("].")
     out.append("Definition scanned_site_count : nat := %d." % len(sites))
+    # constant indices `base[k]`: one row per (group, indexed expression) with the number of such sites and the largest k
+    ci = {}
+    for s in sites:
+        if "cidx" in s:
+            b, k = s["cidx"]
+            n, mx = ci.get((s["key"], b), (0, 0))
+            ci[(s["key"], b)] = (n + 1, max(mx, k))
+    out.append("(* every index site whose index is an integer literal: (group, indexed expression, (number of sites, largest index)) *)")
+    out.append("Definition const_index_sites : list (string * string * (nat * nat)) := [")
+    out.append(";\n".join("  (%s, %s, (%d, %d))" % (q(k), q(b), n, mx) for (k, b), (n, mx) in sorted(ci.items())))
+    out.append("].")
     return "\n".join(out) + "\n"
 
 
